@@ -40,12 +40,17 @@ def deref(w, href, want_uid):
     return "ok"
 
 
+# the principal a route prefix is tried with: its name begins with letters of the prefix
+PRINCIPAL_FOR = {"/": "/user/", "/dav/": "/david/", "/a/b/": "/alice/"}
+
+
 def run_config(cases, frontend, prefix):
-    w = World(frontend=frontend, prefix=prefix)
+    principal = PRINCIPAL_FOR.get(prefix, "/user/")
+    w = World(frontend=frontend, prefix=prefix, principal=principal)
     names_out = []
     checks = {}
     try:
-        coll = "/user/calendars/h/"
+        coll = principal + "calendars/h/"
         assert w.request("MKCALENDAR", coll).status in range(200, 300)
         uid_for = {}
         by_uid = {}
